@@ -13,7 +13,7 @@ MODEL = "c08"
 GEN = []
 RULE = ("t <maxFD> ops: histories of fd_open/fd_close (and fdUsageHigh queries) on the real fd.cc with a table of exactly maxFD entries: random "
         "open/close mixes biased to the top of the table and to Biggest_FD, re-opening of open slots, full tables, all histories of length <= 4 over "
-        "3 slots (thorough: <= 6 over 4 slots); a few deliberate misuses (double close, descriptor outside the table) that must assert. "
+        "3 slots (thorough: <= 5 over 4 slots); a few deliberate misuses (double close, descriptor outside the table) that must assert. "
         "e <cache> txns: 3..12 concurrent transactions per scenario drawn from complete (GET, POST, persistent client, cache hit), client abort "
         "mid-request / mid-response (close and reset) at random byte offsets, client stall, origin close / reset / stall at random byte offsets, with "
         "caching on and off, against 4 rebuilt squids with 2-second timeouts; descriptors by /proc/<pid>/fd and by mgr:filedescriptors before the "
@@ -68,8 +68,9 @@ class Harness:
         out = [None] * len(lines)
         ti = [i for i, l in enumerate(lines) if l.startswith("t ")]
         ei = [i for i, l in enumerate(lines) if l.startswith("e ")]
+        known = set(ti) | set(ei)
         for i in range(len(lines)):
-            if i not in set(ti) | set(ei):
+            if i not in known:
                 out[i] = "bad-op"
         if ti:
             for i, r in zip(ti, self.t.run([lines[i] for i in ti])):
@@ -100,7 +101,7 @@ def t_cases(rng, tier):
     thorough = tier == "thorough"
     # exhaustive small scope: all histories over 3 (4) slots
     slots = 4 if thorough else 3
-    depth = 6 if thorough else 4
+    depth = 5 if thorough else 4
     ops = ["o%d" % i for i in range(slots)] + ["c%d" % i for i in range(slots)]
 
     def rec(prefix, opened, d):
